@@ -10,55 +10,110 @@ from props.env import install_env
 U64_MAX = (1 << 64) - 1
 
 
-class SStrV(OpaqueV):
-    """symbolic string (z3 String term)"""
+L_MAX = 14      # modelled name length bound (characters)
 
-    def __init__(self, t, utf8=None):
-        OpaqueV.__init__(self, "str", None, {"t": t, "utf8": utf8})
+
+class View:
+    """bounded symbolic string: characters chars[start .. start+len) of a fixed array of z3 Ints"""
+
+    def __init__(self, chars, start, length):
+        self.chars, self.start, self.len = chars, start, length
+
+    def at(self, j):
+        """character at view index j (z3 Int term); 0 outside"""
+        r = z3.IntVal(0)
+        for i in range(len(self.chars) - 1, -1, -1):
+            r = z3.If(self.start + j == i, self.chars[i], r)
+        return r
+
+    @staticmethod
+    def const(text):
+        return View([z3.IntVal(ord(ch)) for ch in text], z3.IntVal(0), z3.IntVal(len(text)))
+
+    @staticmethod
+    def fresh(name, maxlen, st, minlen=0):
+        chars = [z3.Int("%s_c%d" % (name, i)) for i in range(maxlen)]
+        ln = z3.Int("%s_len" % name)
+        st.pc += [ln >= minlen, ln <= maxlen]
+        for c in chars:
+            st.pc.append(z3.And(c >= 1, c <= 0x10FFFF, c != 47))      # any character but NUL and '/'
+        return View(chars, z3.IntVal(0), ln)
+
+    def sub(self, off, length):
+        return View(self.chars, self.start + off, length)
+
+    def n(self):
+        return len(self.chars)
+
+
+def v_prefix(b, c):
+    """b is a prefix of c"""
+    conds = [b.len <= c.len]
+    for j in range(b.n()):
+        conds.append(z3.Implies(j < b.len, b.at(j) == c.at(j)))
+    return z3.And(*conds)
+
+
+def v_eq(a, b):
+    conds = [a.len == b.len]
+    for j in range(max(a.n(), b.n())):
+        conds.append(z3.Implies(j < a.len, a.at(j) == b.at(j)))
+    return z3.And(*conds)
+
+
+def v_last_index(c, ch):
+    r = z3.IntVal(-1)
+    for j in range(c.n()):
+        r = z3.If(z3.And(j < c.len, c.at(j) == ch), z3.IntVal(j), r)
+    return r
+
+
+def is_ascii_digit(x):
+    return z3.And(x >= 48, x <= 57)
+
+
+def is_regex_digit(x):
+    # the regex crate's \d is Unicode-aware: one non-ASCII block stands for the digits parse::<u64> rejects
+    return z3.Or(is_ascii_digit(x), z3.And(x >= 0x660, x <= 0x669))
+
+
+def v_all(view, pred, lo, hi):
+    """pred holds for every character with view index in [lo, hi)"""
+    return z3.And(*[z3.Implies(z3.And(j >= lo, j < hi), pred(view.at(j))) for j in range(view.n())])
+
+
+def v_decimal(view):
+    """value of the ASCII-decimal view (meaningful when all characters are digits)"""
+    v = z3.IntVal(0)
+    for j in range(view.n()):
+        v = z3.If(j < view.len, v * 10 + (view.at(j) - 48), v)
+    return v
+
+
+class SStrV(OpaqueV):
+    """symbolic string value"""
+
+    def __init__(self, view, utf8=None):
+        OpaqueV.__init__(self, "str", None, {"t": view, "utf8": utf8})
 
 
 def sterm(eng, st, v):
     v = deref_ref(eng, st, v)
     if isinstance(v, StrV):
-        return z3.StringVal(v.s)
+        return View.const(v.s)
     if isinstance(v, OpaqueV) and "t" in v.attrs:
         return v.attrs["t"]
     raise EngineAbort("not a string value: %r" % (v,))
 
 
-DIGIT = z3.Range("0", "9")
-# the regex crate's \d is Unicode-aware: one non-ASCII digit block stands for "digits that parse::<u64> rejects"
-UDIGIT = z3.Union(DIGIT, z3.Range(chr(0x660), chr(0x669)))
-
-
-def pattern_to_z3(pat):
-    """tiny translator for the pattern the code passes to Regex::new:  ^ $ \\x literals, \\d, one (group), + * ?
-    -> (prefix literal, group regex, suffix literal); anything else aborts (never guess)."""
-    if not (pat.startswith("^") and pat.endswith("$")):
-        raise EngineAbort("backup pattern is not anchored: %r" % pat)
-    body = pat[1:-1]
-    m = re.match(r"^((?:\\.|[^\\()+*?\[\]|.])*)\(((?:\\.|[^\\()|\[\]])+)\)((?:\\.|[^\\()+*?\[\]|.])*)$", body)
+def parse_pattern(pat):
+    """the pattern the code passes to Regex::new, restricted to  ^ literal* ( class+ ) literal* $  with class in {\\d}
+    -> (prefix literal, class predicate, suffix literal); anything else aborts (never guess)."""
+    m = re.match(r"^\^((?:\\.|[^\\()+*?\[\]|.$^])*)\((\\d)\+\)((?:\\.|[^\\()+*?\[\]|.$^])*)\$$", pat)
     if not m:
         raise EngineAbort("backup pattern outside the supported subset: %r" % pat)
-
-    def lit(s):
-        return re.sub(r"\\(.)", r"\1", s)
-
-    def atom_seq(s):
-        out, i = [], 0
-        while i < len(s):
-            if s[i] == "\\":
-                a = UDIGIT if s[i + 1] == "d" else z3.Re(z3.StringVal(s[i + 1]))
-                i += 2
-            else:
-                a = z3.Re(z3.StringVal(s[i]))
-                i += 1
-            if i < len(s) and s[i] in "+*?":
-                a = {"+": z3.Plus, "*": z3.Star, "?": z3.Option}[s[i]](a)
-                i += 1
-            out.append(a)
-        return out[0] if len(out) == 1 else z3.Concat(*out)
-    return lit(m.group(1)), atom_seq(m.group(2)), lit(m.group(3))
+    lit = lambda x: re.sub(r"\\(.)", r"\1", x)
+    return lit(m.group(1)), is_regex_digit, lit(m.group(3))
 
 
 def install_backup_env(ctx, eng):
@@ -79,15 +134,16 @@ def install_backup_env(ctx, eng):
     S(r"^(std::ffi::)?OsStr::to_string_lossy$", lambda e, st, c, a, d: Outcome(AggV("Cow", 0, [RefV(Cell(deref_ref(e, st, a[0])))], "Borrowed")))
     front(r"^<Cow<'_, str> as Deref>::deref$", lambda e, st, c, a, d: Outcome(deref_ref(e, st, a[0]).fields[0]))
     front(r"^<Cow<'_, str> as ToString>::to_string$", lambda e, st, c, a, d: Outcome(deref_ref(e, st, deref_ref(e, st, a[0]).fields[0])))
-    S(r"^core::str::<impl str>::starts_with::<&str>$", lambda e, st, c, a, d: Outcome(BoolV(z3.PrefixOf(sterm(e, st, a[1]), sterm(e, st, a[0])))))
+    S(r"^core::str::<impl str>::starts_with::<&str>$", lambda e, st, c, a, d: Outcome(BoolV(v_prefix(sterm(e, st, a[1]), sterm(e, st, a[0])))))
 
     def s_extension(eng, st, callee, args, dty):
         p = deref_ref(eng, st, args[0])
         nm = p.attrs["name"]
         c = nm.attrs["t"]
-        idx = z3.LastIndexOf(c, z3.StringVal("."))
-        ext = SStrV(z3.SubString(c, idx + 1, z3.Length(c) - idx - 1), nm.attrs.get("utf8"))
-        has = z3.And(idx >= 1, c != z3.StringVal(".."))
+        idx = v_last_index(c, 46)
+        ext = SStrV(c.sub(idx + 1, c.len - idx - 1), nm.attrs.get("utf8"))
+        dotdot = z3.And(c.len == 2, c.at(0) == 46, c.at(1) == 46)
+        has = z3.And(idx >= 1, z3.Not(dotdot))
         return [Outcome(some(RefV(Cell(ext))), [has]), Outcome(none(), [z3.Not(has)])]
     S(r"^(std::path::)?Path::extension$", s_extension)
 
@@ -102,12 +158,17 @@ def install_backup_env(ctx, eng):
     def s_captures(eng, st, callee, args, dty):
         rx = deref_ref(eng, st, args[0])
         s = sterm(eng, st, args[1])
-        pre, grp, post = pattern_to_z3(rx.attrs["pattern"])
-        g = z3.String("cap1_%d" % next(eng.fresh_ids))
-        whole = z3.Concat(z3.StringVal(pre), g, z3.StringVal(post)) if (pre or post) else g
-        matches = z3.InRe(s, z3.Concat(z3.Re(z3.StringVal(pre)), grp, z3.Re(z3.StringVal(post))))
+        pre, cls, post = parse_pattern(rx.attrs["pattern"])
+        conds = [s.len >= len(pre) + len(post) + 1]
+        for i, ch in enumerate(pre):
+            conds.append(s.at(i) == ord(ch))
+        for i, ch in enumerate(post):
+            conds.append(s.at(s.len - len(post) + i) == ord(ch))
+        conds.append(v_all(s, cls, len(pre), s.len - len(post)))
+        matches = z3.And(*conds)
+        g = s.sub(len(pre), s.len - len(pre) - len(post))
         caps = OpaqueV("Captures", None, {"groups": [SStrV(s), SStrV(g)]})
-        return [Outcome(some(caps), [matches, s == whole, z3.InRe(g, grp)]), Outcome(none(), [z3.Not(matches)])]
+        return [Outcome(some(caps), [matches]), Outcome(none(), [z3.Not(matches)])]
     S(r"^regex::Regex::captures$", s_captures)
 
     def s_get(eng, st, callee, args, dty):
@@ -121,9 +182,10 @@ def install_backup_env(ctx, eng):
 
     def s_parse(eng, st, callee, args, dty):
         s = sterm(eng, st, args[0])
-        okform = z3.InRe(s, z3.Concat(z3.Option(z3.Re(z3.StringVal("+"))), z3.Plus(DIGIT)))
-        digits = z3.If(z3.PrefixOf(z3.StringVal("+"), s), z3.SubString(s, 1, z3.Length(s) - 1), s)
-        val = z3.StrToInt(digits)
+        plus = z3.And(s.len >= 1, s.at(0) == 43)
+        digits = View(s.chars, z3.If(plus, s.start + 1, s.start), z3.If(plus, s.len - 1, s.len))
+        okform = z3.And(digits.len >= 1, v_all(digits, is_ascii_digit, 0, digits.len))
+        val = v_decimal(digits)
         n = eng.fresh_int(st, "u64", "parsed")
         return [Outcome(ok(n), [okform, val <= U64_MAX, n.t == val]),
                 Outcome(AggV("Result", 1, [OpaqueV("ParseIntError")], "Err"), [z3.Not(z3.And(okform, val <= U64_MAX))])]
@@ -133,11 +195,13 @@ def install_backup_env(ctx, eng):
 
 
 def _spec(b, c):
-    """reference: c is a numbered backup of b  <=>  c == b ++ ".~" ++ digits ++ "~", digits a decimal u64"""
-    rest = z3.SubString(c, z3.Length(b), z3.Length(c) - z3.Length(b))
-    digits = z3.SubString(rest, 2, z3.Length(rest) - 3)
-    shape = z3.And(z3.PrefixOf(b, c), z3.InRe(rest, z3.Concat(z3.Re(z3.StringVal(".~")), z3.Plus(DIGIT), z3.Re(z3.StringVal("~")))))
-    return z3.And(shape, z3.StrToInt(digits) <= U64_MAX), z3.StrToInt(digits)
+    """reference: c is a numbered backup of b  <=>  c == b ++ ".~" ++ digits ++ "~", digits a decimal number within u64"""
+    rest = c.sub(b.len, c.len - b.len)
+    digits = rest.sub(2, rest.len - 3)
+    shape = z3.And(v_prefix(b, c), rest.len >= 4, rest.at(0) == 46, rest.at(1) == 126, rest.at(rest.len - 1) == 126,
+                   v_all(digits, is_ascii_digit, 0, digits.len))
+    num = v_decimal(digits)
+    return z3.And(shape, num <= U64_MAX), num
 
 
 def lemma_is_num_backup(ctx):
@@ -145,10 +209,10 @@ def lemma_is_num_backup(ctx):
     install_backup_env(ctx, eng)
     fn = fn_named(eng.funcs, "is_num_backup")
     st = State()
-    b = z3.String("base_name")
-    c = z3.String("candidate_name")
+    nb, nc = (5, 12) if ctx.tier == "quick" else (6, L_MAX + 12)
+    b = View.fresh("base", nb, st, 1)
+    c = View.fresh("cand", nc, st, 0)
     utf8 = z3.Bool("candidate_is_utf8")
-    st.pc += [z3.Length(b) >= 1, z3.Length(b) <= 6, z3.Length(c) <= 12, z3.Not(z3.Contains(b, z3.StringVal("/"))), z3.Not(z3.Contains(c, z3.StringVal("/")))]
     cand = OpaqueV("Path", "candidate", {"name": SStrV(c, utf8)})
     paths = eng.run(fn.name, [RefV(Cell(SStrV(b))), RefV(Cell(cand))], st)
     ctx.paths += len(paths)
@@ -167,8 +231,6 @@ def lemma_is_num_backup(ctx):
         else:
             nonutf = any(e.name == "non-utf8" for e in p.trace)
             if nonutf:
-                # the textual shape of a non-UTF-8 name cannot satisfy the reference predicate in the string model;
-                # what is decided here is that such names are *never* recognised, whatever their bytes
                 ctx.fail("C09: backups of names with non-UTF-8 bytes are recognised too",
                          "OsStr::to_str() returns None for every non-UTF-8 sibling, so its existing .~N~ backups are invisible: "
                          "the next backup reuses .~1~ and replaces the old version",
@@ -176,14 +238,14 @@ def lemma_is_num_backup(ctx):
             else:
                 ctx.lemma(eng, "C09: every sibling named <base>.~N~ (decimal N within u64) is recognised", p.pc, z3.Not(spec))
     (ctx.passed if some_n else ctx.fail)("witness: some name is recognised", "")
-    ctx.bounds = "base names of 1..6 and sibling names of 0..12 characters (z3 strings), any characters but '/'; \\d modelled as ASCII digits plus one non-ASCII digit block"
+    ctx.bounds = ("base names of 1..%d and sibling names of 0..%d characters (bounded symbolic strings: one integer per character), any characters but '/' and NUL; "
+                  "\\d modelled as ASCII digits plus one non-ASCII digit block" % (nb, nc))
 
 
 def _mk_entries(eng, st, n, b):
     ents = []
     for i in range(n):
-        c = z3.String("entry%d_name" % i)
-        st.pc += [z3.Length(c) >= 1, z3.Length(c) <= 10, z3.Not(z3.Contains(c, z3.StringVal("/")))]
+        c = View.fresh("entry%d" % i, 10, st, 1)
         ents.append(OpaqueV("DirEntry", "entry%d" % i, {"name": SStrV(c, None), "t": c}))
     return ents
 
@@ -266,8 +328,7 @@ def lemma_next_backup_num(ctx):
     eng = ctx.engine("libxcp", loop_bound=3, timeout_s=1200)
     install_backup_env(ctx, eng)
     st = State()
-    b = z3.String("base_name")
-    st.pc += [z3.Length(b) >= 1, z3.Length(b) <= 5, z3.Not(z3.Contains(b, z3.StringVal("/")))]
+    b = View.fresh("base", 4, st, 1)
     entries = _mk_entries(eng, st, n_ent, b)
     _install_readdir(ctx, eng, entries)
     eng.inline += [r"^is_num_backup$"]
@@ -294,9 +355,8 @@ def lemma_next_backup_num(ctx):
             spec, num = _spec(b, ent.attrs["t"])
             ctx.lemma(eng, "C09: the new backup number is greater than every backup number already present for that name", p.pc,
                       z3.Implies(spec, N > num))
-            newname = z3.Concat(b, z3.StringVal(".~"), z3.IntToStr(N), z3.StringVal("~"))
             ctx.lemma(eng, "C09: the new backup name is not the name of an existing sibling (no existing backup is replaced)", p.pc,
-                      ent.attrs["t"] != newname)
+                      z3.Not(z3.And(spec, num == N)))
         ctx.lemma(eng, "C09: backup numbers start at 1", p.pc, N >= 1)
     (ctx.passed if okn else ctx.fail)("witness: next_backup_num success path", "")
     ctx.bounds = "directories of %d arbitrary sibling names (<= 10 characters) besides the file; UTF-8 names (non-UTF-8 siblings are the separate finding)" % n_ent
@@ -307,8 +367,7 @@ def lemma_has_backup(ctx):
     eng = ctx.engine("libxcp", loop_bound=3, timeout_s=900)
     install_backup_env(ctx, eng)
     st = State()
-    b = z3.String("base_name")
-    st.pc += [z3.Length(b) >= 1, z3.Length(b) <= 5, z3.Not(z3.Contains(b, z3.StringVal("/")))]
+    b = View.fresh("base", 4, st, 1)
     entries = _mk_entries(eng, st, n_ent, b)
     _install_readdir(ctx, eng, entries)
     eng.inline += [r"^is_num_backup$"]
